@@ -12,6 +12,7 @@ import (
 type RunOpts struct {
 	Grace  time.Duration
 	Probes bool
+	Reduce bool
 	Check  func(env *Env) string
 }
 
@@ -47,6 +48,7 @@ func stackBody(stack []Spec, script []Out, o RunOpts) func() {
 	return func() {
 		env := NewEnv(stack)
 		env.Script = script
+		env.Reduce = o.Reduce
 		env.runSync(o.Probes)
 		if o.Grace > 0 {
 			vrt.Sleep(int64(o.Grace))
